@@ -431,4 +431,13 @@ def r5_9(ctx: Ctx) -> RuleResult:
     return r14_5(ctx, "R5.9")
 
 
-RULES = [r5_1, r5_3, r5_4, r5_5, r5_6, r5_7, r5_8, r5_9]
+def r5_10(ctx: Ctx) -> RuleResult:
+    """RFC 6902: an operation that cannot be applied is an error *of the patch*.  Building and applying raise only
+    the patch error family: the escape sets of the patch entry points (= R6.1 restricted to them) - a pointer type
+    error that is not translated (`add /a/b` below an array) is not a patch error."""
+    from .c06 import r6_1
+
+    return r6_1(ctx, "R5.10", only="patch", floor=5)
+
+
+RULES = [r5_1, r5_3, r5_4, r5_5, r5_6, r5_7, r5_8, r5_9, r5_10]
